@@ -40,7 +40,7 @@ func New(ctx context.Context, clock clock.IClock, definition schema.TimerEventDe
 			return
 		}
 		go dateTimeTimer(ctx, clock, t, func() {
-			ch <- definition
+			send(ctx, ch, definition)
 			close(ch)
 		})
 	case !timeDatePresent && timeCyclePresent && !timeDurationPresent:
@@ -55,7 +55,7 @@ func New(ctx context.Context, clock clock.IClock, definition schema.TimerEventDe
 			repeatingInterval.Interval.Start = &now
 		}
 		go recurringTimer(ctx, clock, repeatingInterval, func() {
-			ch <- definition
+			send(ctx, ch, definition)
 		}, func() {
 			close(ch)
 		})
@@ -67,7 +67,7 @@ func New(ctx context.Context, clock clock.IClock, definition schema.TimerEventDe
 			return
 		}
 		go dateTimeTimer(ctx, clock, clock.Now().Add(duration.Duration), func() {
-			ch <- definition
+			send(ctx, ch, definition)
 			close(ch)
 		})
 	default:
@@ -80,11 +80,23 @@ func New(ctx context.Context, clock clock.IClock, definition schema.TimerEventDe
 	return
 }
 
+// send hands a firing to the timer's consumer unless the context is done:
+// the consumer stops receiving then, and a plain send would park the timer
+// goroutine forever.
+func send(ctx context.Context, ch chan<- schema.TimerEventDefinition, definition schema.TimerEventDefinition) {
+	select {
+	case ch <- definition:
+	case <-ctx.Done():
+	}
+}
+
 func recurringTimer(ctx context.Context, clock clock.IClock, interval iso8601.RepeatingInterval, f func(), final func()) {
 	if interval.Interval.Start == nil {
 		panic("shouldn't happen, has to be always set, explicitly or by timer.New")
 	}
-	ch := make(chan struct{})
+	// buffered: this function may have returned (context done) by the time
+	// the start is reached
+	ch := make(chan struct{}, 1)
 	go dateTimeTimer(ctx, clock, *interval.Interval.Start, func() {
 		ch <- struct{}{}
 	})
